@@ -296,7 +296,30 @@ func Load(prog *Program, root string, goVersion string) (*Loaded, error) {
 type Options struct {
 	Sequential  bool
 	SanityCheck bool
-	Roots       []string // package IDs; nil = all variants
+	Roots       []string       // package IDs; nil = all variants
+	RawConfig   *config.Config // if set, used instead of the Config argument (e.g. produced by the real flag/env parser)
+}
+
+// ParseConfig runs the repository's own flag-value parser on raw option
+// strings (nil = leave the flag at its default).
+func ParseConfig(scanTests *string, excludePaths *string, excludeChecks *string) (*config.Config, error) {
+	fs := config.CreateFlagSet()
+	set := func(name string, v *string) error {
+		if v == nil {
+			return nil
+		}
+		return fs.Set(name, *v)
+	}
+	if err := set("scan-tests", scanTests); err != nil {
+		return nil, err
+	}
+	if err := set("exclude-paths", excludePaths); err != nil {
+		return nil, err
+	}
+	if err := set("exclude-checks", excludeChecks); err != nil {
+		return nil, err
+	}
+	return config.ParseFlagsFromFlagSet(fs), nil
 }
 
 var runMu sync.Mutex
@@ -315,6 +338,9 @@ func Analyze(ld *Loaded, cfg Config, opt Options) *Result {
 		ec = []string{}
 	}
 	curCfg = config.New(cfg.ScanTests, ep, ec)
+	if opt.RawConfig != nil {
+		curCfg = opt.RawConfig
+	}
 	panicMu.Lock()
 	panicsSeen = nil
 	panicMu.Unlock()
